@@ -13,14 +13,14 @@ fn tok() -> Address {
 fn k(d: &DataKey) -> Val {
     d.into_val(&Env)
 }
+// balances and minting rights are OBSERVED through the public queries (a changed storage layout is then judged on
+// behaviour); only the pre-state is SEEDED through the storage keys, and `pre()` checks that what it seeded is
+// what the contract reads (otherwise the run is inconclusive, not a violation)
 fn bal(a: &Address) -> i128 {
-    match model::storage_get(&tok(), 1, &k(&DataKey::Balance(a.clone()))) {
-        Some(v) => v.w as i128,
-        None => 0,
-    }
+    model::with_contract(&tok(), || InterchainToken::balance(Env, a.clone()))
 }
 fn is_minter(a: &Address) -> bool {
-    model::storage_has(&tok(), 0, &k(&DataKey::Minter(a.clone())))
+    model::with_contract(&tok(), || InterchainToken::is_minter(&Env, a.clone()))
 }
 fn owner_now() -> Option<Address> {
     model::storage_get(&tok(), 0, &model::val_of(&axelar_soroban_std_owner_key())).map(|v| Address(v.w as u32))
@@ -64,11 +64,19 @@ fn pre() -> Pre {
     // arbitrary minter set over all principals (the unchanged code only consults it when minting;
     // a changed implementation may consult it anywhere)
     let mut mi = 1;
+    let mut seeded_ok = true;
     while mi <= 4 {
         let is_m: bool = kani::any();
         model::storage_set_if(is_m, &tok(), 0, &k(&DataKey::Minter(Address(mi))), &Val::VOID);
+        seeded_ok = seeded_ok && is_minter(&Address(mi)) == is_m;
         mi += 1;
     }
+    i = 0;
+    while i < 3 {
+        seeded_ok = seeded_ok && bal(&p[i]) == b[i];
+        i += 1;
+    }
+    kani::assert(seeded_ok, "MODEL:seeded pre-state is not what the contract reads (storage layout differs from the one this harness seeds)");
     let seq: u32 = kani::any();
     model::set_ledger(kani::any(), seq);
     let al_from = any::address(3);
